@@ -48,10 +48,23 @@ def main():
     nowrite = [e for e in events if e["ev"] not in ("Write", "WriteSkip")]
     ok, matched, res = common.trace_validate("Trace_Pipeline", [header] + nowrite, None, 300)
     results.append(("7 exit 0 without the output having been written rejected", matched < len(nowrite) or bool(res.violation), f"{matched}/{len(nowrite)} {res.violation or ''}"))
-    good = {"lang": "typescript", "ident": list("user_name"), "rename": [], "rule": "camelCase", "key": list("userName"), "kind": "struct", "fields_rule": "none"}
+    good = {"lang": "typescript", "ident": list("user_name"), "rename": ["<none>"], "rule": "camelCase", "key": list("userName"), "kind": "struct", "fields_rule": "none"}
     badev = dict(good, key=list("username"))
     ok, matched, res = common.trace_validate("Trace_C01", [good, badev, good])
     results.append(("4 corrupted C01 key listed as bad", matched == 3 and res.bad == [2], f"bad={res.bad}"))
+    # 8: Trace_Walk - one observed "not read" for an ordinary file is listed, its neighbours are accepted
+    w = {"seg": "plain", "fname": "plain", "follow": False, "git": False, "read": True}
+    ok, matched, res = common.trace_validate("Trace_Walk", [w, dict(w, read=False), dict(w, seg="link_dir", read=False), dict(w, seg="link_dir", read=True)])
+    results.append(("8 an ordinary file not read / a linked directory followed without -L listed as bad", matched == 4 and res.bad == [2, 4], f"bad={res.bad}"))
+    # 9: Trace_Writer - a placeholder that survives the run (stale content) is rejected, the conforming history is accepted
+    f1 = {"out.ts": {"sha": "aaa", "mtime": "1"}}
+    hist = [{"ev": "ref", "v": "v1", "files": {"out.ts": "aaa"}}, {"ev": "reset"}, {"ev": "touch", "files": {"out.ts": {"sha": "empty", "mtime": "0"}}},
+            {"ev": "run", "v": "v1", "failed": False, "files": f1}, {"ev": "run", "v": "v1", "failed": False, "files": f1}]
+    ok, matched, res = common.trace_validate("Trace_Writer", hist)
+    stale = copy.deepcopy(hist)
+    stale[3]["files"] = {"out.ts": {"sha": "empty", "mtime": "0"}}
+    ok2, matched2, res2 = common.trace_validate("Trace_Writer", stale)
+    results.append(("9 a run that leaves the placeholder in place is listed as bad", res.bad == [] and 4 in res2.bad, f"good bad={res.bad} stale bad={res2.bad}"))
     allok = True
     for name, passed, info in results:
         print(("ok   " if passed else "FAIL ") + name + "  [" + info + "]")
